@@ -18,7 +18,7 @@ import numpy as np
 from vf.bounded import Suite
 from refsem import metrics as rm
 from refsem import dagmodel as dm
-from bounded.C12 import mk_op, Run, op_alphabet, real_desc
+from bounded.C12 import mk_op, Run, op_alphabet, real_desc, focus_alphabet, focus_now, options, model_apply, STARTS
 
 S = Suite("C18")
 PEN = (3, 2)  # explicit penalty x -> 3x+2
@@ -219,6 +219,314 @@ def default_case(inp):
     return None
 
 
+# ---------------------------------------------------------------------------------------------- query - edit - query (H4, H1, H2)
+METRIC_KW = {
+    "CircuitDepth": "depth_penalty", "CircuitEmitterCount": "n_emitter_penalty", "CircuitCnotCount": "n_cnot_penalty",
+    "CircuitUnitaryCount": "n_unitary_penalty", "CircuitMeasureCount": "m_penalty", "CircuitMaxEmitDepth": "depth_penalty",
+    "CircuitMaxEmitResetDepth": "depth_penalty", "CircuitMaxEmitEffDepth": "depth_penalty",
+}
+QUERIES = ["depth", "register_depth", "calculate_reg_depth"] + list(METRIC_KW)
+
+
+def definition(m):
+    """every C18 quantity of the circuit described by the wire model m, from its operation list (refsem.metrics)"""
+    order = m.linear_order()
+    ops = [m.ops[u] for u in order]
+    cw = [sorted(int(k[1:]) for k in m.cwired[u]) for u in order]
+    ne = m.n["e"]
+    rd = {t: [rm.register_depth(ops, (t, i), cw) for i in range(m.n[t])] for t in "epc"}
+    two_readings = rm.mcr_targets_emitter(ops)
+    return {
+        "depth": rm.depth(ops, cw), "register_depth": rd, "calculate_reg_depth": rd,
+        "CircuitDepth": rm.depth(ops, cw), "CircuitEmitterCount": rm.emitter_count(ne), "CircuitCnotCount": rm.ee_cnot_count(ops),
+        "CircuitUnitaryCount": rm.unitary_count(ops), "CircuitMeasureCount": rm.measure_count(ops),
+        "CircuitMaxEmitDepth": rm.max_emitter_depth(ne, ops),
+        "CircuitMaxEmitResetDepth": "skip" if two_readings else rm.reset_depth(ne, ops),
+        "CircuitMaxEmitEffDepth": "skip" if two_readings else rm.effective_depth(ne, ops, cw),
+    }
+
+
+class Meters:
+    """ONE metric object per class and construction (default / explicit penalty), used for every query of a history"""
+
+    def __init__(self):
+        import graphiq.metrics as gm
+
+        self.objs = {name: (getattr(gm, name)(), getattr(gm, name)(**{kw: penalty})) for name, kw in METRIC_KW.items()}
+
+    def ask(self, c, name, want, explicit):
+        """one query on the real circuit c; -> symptom or None"""
+        if want == "skip":
+            return None
+        if name == "depth":
+            got = c.depth
+            return None if got == want and not isinstance(got, bool) else f"circuit.depth = {got!r}, definition gives {want!r}"
+        if name == "register_depth":
+            got = c.register_depth
+            got = {t: [int(x) for x in got[t]] for t in got}
+            return None if got == want else f"register_depth = {got}, definition gives {want}"
+        if name == "calculate_reg_depth":
+            for t in "epc":
+                g = [int(x) for x in c.calculate_reg_depth(t)]
+                if g != want[t]:
+                    return f"calculate_reg_depth({t!r}) = {g}, definition gives {want[t]}"
+                if want[t]:
+                    i = int(c.min_reg_depth_index(t))
+                    if want[t][i] != min(want[t]):
+                        return f"min_reg_depth_index({t!r}) = {i} but depths are {want[t]}"
+            return None
+        met = self.objs[name][1 if explicit else 0]
+        if want is None:  # no emitter: the maximum is undefined, ValueError allowed
+            try:
+                met.evaluate(None, c)
+            except ValueError:
+                pass
+            return None
+        got = met.evaluate(None, c)
+        exp = penalty(want) if explicit else want
+        if got != exp or isinstance(got, bool):
+            return f"{name}({'penalty 3x+2' if explicit else 'default'}).evaluate = {got!r}, definition gives {exp!r}"
+        return None
+
+
+def ask_all(meters, c, m, names, tag, explicit_of=None):
+    want = definition(m)
+    for j, name in enumerate(names):
+        explicit = (j % 2 == 1) if explicit_of is None else explicit_of(j)
+        s = meters.ask(c, name, want[name], explicit)
+        if s:
+            return f"{tag}: query {name}: {s}"
+    return None
+
+
+def qeq_history(inp):
+    """a seeded edit history (all edit kinds of the C12 driver) with metric queries in between.  After every query batch
+    the circuit must still be the circuit the specification describes (queries do not modify their argument)."""
+    rng = np.random.default_rng([inp["seed"], 1804])
+    r = Run(inp["regs"], deep=False)
+    s = r.check("construction")
+    if s:
+        return s
+    meters = Meters()
+    frozen = []  # (circuit, specification snapshot, step): circuits a copy was taken from; they must keep their values
+    fam = "A"
+    cap = inp.get("cap", [3, 3, 2])
+    target = inp.get("target_ops", 9)
+
+    def batch(tag):
+        k = int(rng.integers(1, len(QUERIES) + 1))
+        names = [QUERIES[i] for i in rng.permutation(len(QUERIES))[:k]]
+        if rng.random() < 0.3:
+            names = names + names  # the same queries twice in a row
+        flip = int(rng.integers(2))
+        s = ask_all(meters, r.c, r.m, names, tag, lambda j: (j + flip) % 2 == 1)
+        if s:
+            return s
+        s = r.check(tag + ": after the queries")
+        if s:
+            return s + " (a query modified the circuit)"
+        for c0, m0, step in frozen[-2:]:
+            if rng.random() < 0.5:
+                s = ask_all(meters, c0, m0, names[:4], f"{tag}: circuit copied at edit #{step} (its copy was edited since)", lambda j: (j + flip) % 2 == 0)
+                if s:
+                    return s
+        return None
+
+    s = batch("before the first edit")
+    if s:
+        return s
+    for step in range(inp["len"]):
+        m = r.m
+        n_ops = len(m.ops)
+        if "focus" in inp:
+            Q, C = focus_now(m, inp["focus"], inp["cfocus"])
+            A = focus_alphabet(Q, C, fam, True)
+        else:
+            A = op_alphabet(m.n, fam, True)
+        A = [d for d in A if not (d[0] == "mcr" and d[2][0] == "e")] if inp.get("no_emitter_target_reset", True) else A
+        x = rng.random()
+        p_add = 0.5 if n_ops < target else 0.15
+        if x < p_add:
+            d = A[rng.integers(len(A))]
+            if rng.random() < 0.4:
+                ed = ["add", d]
+            else:
+                ed = ["ins", d, [int(rng.integers(len(m.wires[dm.key(q)]) + 1)) for q in dm.qregs(d)]]
+        elif x < p_add + 0.3:
+            ed = ["rm", int(rng.integers(max(1, n_ops)))]
+        elif x < p_add + 0.4:
+            ids = m.op_ids()
+            if not ids:
+                continue
+            k = int(rng.integers(len(ids)))
+            old = m.ops[ids[k]]
+            cands = {"g": [["g", "Z"], ["w", ["P", "H"]], ["g", "I"], ["w", ["I", "I"]]], "w": [["g", "Y"], ["w", ["X"]], ["g", "I"]],
+                     "cx": [["cz"]], "cz": [["cx"]], "ccx": [["mcr"], ["ccz"]], "ccz": [["ccx"]], "mcr": [["ccx"]], "mz": [["mz"]]}[old[0]]
+            a = cands[rng.integers(len(cands))]
+            if a[0] == "mcr" and old[2][0] == "e":
+                continue  # would create a measure-reset that targets an emitter (two readings, see RESET_NOTE)
+            ed = ["rep", k, a + [None] if a[0] in ("g", "w") else a]
+        else:
+            y = rng.random()
+            if y < 0.22:
+                ed = ["unwrap"]
+            elif y < 0.44:
+                ed = ["rmid"]
+            elif y < 0.62:
+                ed = ["group"]
+            elif y < 0.85:
+                ed = ["copy"]
+            else:
+                t = "epc"[rng.integers(3)]
+                if m.n[t] >= cap["epc".index(t)]:
+                    continue
+                ed = ["addreg", t]
+        if ed[0] == "copy":
+            frozen.append((r.c, r.m.copy(), len(r.trace) + 1))
+        s = r.apply(ed)
+        if s:
+            raise RuntimeError("C12 failure while editing the circuit: " + s)
+        if rng.random() < 0.75:
+            s = batch(f"after edit #{len(r.trace)} {r.trace[-1]} (previous {r.trace[-4:-1]})")
+            if s:
+                return s
+    names = list(QUERIES)
+    s = ask_all(meters, r.c, r.m, names, f"at the end (last edits {r.trace[-4:]})") or ask_all(meters, r.c, r.m, names, "at the end, second evaluation", lambda j: j % 2 == 0)
+    if s:
+        return s
+    for c0, m0, step in frozen[-3:]:
+        s = ask_all(meters, c0, m0, names, f"at the end: circuit copied at edit #{step} (its copy was edited since)")
+        if s:
+            return s
+    return None
+
+
+def qeq_short(inp):
+    """start circuit - all queries - edits - all queries (twice) ; also on a copy taken after the first queries"""
+    r = Run(inp["regs"], deep=False)
+    r.check("construction")
+    for d in inp.get("start", []):
+        r.c.add(mk_op(d))
+        r.m.add(d)
+    s = r.check("building the start circuit")
+    if s:
+        raise RuntimeError("C12 failure: " + s)
+    meters = Meters()
+    names = list(QUERIES)
+    s = ask_all(meters, r.c, r.m, names, "before the edits")
+    if s:
+        return s
+    if inp.get("on_copy"):
+        c0, m0 = r.c, r.m.copy()
+        r.c = r.c.copy()
+    for ed in inp["edits"]:
+        s = r.apply(list(ed))
+        if s:
+            raise RuntimeError("C12 failure while editing the circuit: " + s)
+        if inp.get("query_between"):
+            s = ask_all(meters, r.c, r.m, names, f"after {ed}", lambda j: j % 2 == 0)
+            if s:
+                return s
+    tag = f"after the edits {inp['edits']}" + (" of a copy taken after the first queries" if inp.get("on_copy") else "")
+    s = ask_all(meters, r.c, r.m, names, tag, lambda j: j % 2 == 0) or ask_all(meters, r.c, r.m, names, tag + ", second evaluation")
+    if s:
+        return s
+    s = r.check(tag + ": after the queries")
+    if s:
+        return s + " (a query modified the circuit)"
+    if inp.get("on_copy"):
+        s = ask_all(meters, c0, m0, names, tag + ": the circuit the copy was taken from")
+        if s:
+            return s
+    return None
+
+
+QEQ_BOUND_RANDOM = (
+    "seeded edit histories of the C12 driver (add, insert_at, remove_op, replace_op, unwrap_nodes, remove_identity, "
+    "group_one_qubit_gates, copy, add_*_register; removals as likely as additions, circuits kept at <= ~10 ops) with a query batch "
+    "after ~75% of the edits: a random non-empty subset of {depth, register_depth, calculate_reg_depth/min_reg_depth_index, the 8 "
+    "metric classes} in random order, 30% of the batches asked twice in a row, default and explicit penalty alternating; ONE metric "
+    "object per class for the whole history; after every batch the circuit must still equal its specification (queries do not "
+    "modify it); circuits a copy was taken from are queried again after their copy was edited; all queries twice at the end. "
+    "quick: 96 histories x 60 edits on <= (3e,3p,2c) and 32 x 40 on circuits with 10..13 registers per type (focus on indices "
+    ">= 9); thorough 600 x 80 and 200 x 60" + RESET_NOTE
+)
+
+
+@S.item("metrics.query_edit_query", site=M + "Circuit* metric classes / graphiq.circuit.circuit_dag:CircuitDAG.depth, register_depth, _max_depth",
+        bound=QEQ_BOUND_RANDOM, clause="each cost metric equals its definition - for every circuit, whatever its edit and query history")
+def qeq_case(inp):
+    return qeq_history(inp)
+
+
+@S.item("metrics.query_edit_query_short",
+        site=M + "Circuit* metric classes / graphiq.circuit.circuit_dag:CircuitDAG.depth, register_depth, _max_depth",
+        bound="from each of the 4 C12 start circuits STARTS plus 3 circuits with identities / wrappers / resets (QEQ_STARTS): all "
+        "queries - ONE edit - all queries twice, for EVERY edit offered by the C12 edit alphabet options() (rich alphabet, family A: "
+        "all add / insert positions, every removable node, class replacements, unwrap, group, remove_identity, register additions, "
+        "copy), on the circuit itself and on a copy taken after the first queries (additions: alternately one of the two; the "
+        "original is queried again afterwards); and "
+        "all pairs (removal-kind edit, any non-adding edit) [rm, rmid, unwrap, group, rep, copy] with queries in between, and all "
+        "pairs (removal, Hadamard added / inserted at any position) without a query in between",
+        exhaustive=True,
+        clause="each cost metric equals its definition after a first query and one or two edits (stale cached values)")
+def qeq_short_case(inp):
+    return qeq_short(inp)
+
+
+QEQ_STARTS = [
+    ((2, 1, 1), [["g", "I", ["e", 0]], ["g", "H", ["e", 0]], ["cx", ["e", 0], ["e", 1]], ["g", "I", ["e", 1]], ["cx", ["e", 1], ["p", 0]],
+                 ["w", ["I", "H"], ["p", 0]], ["mcr", ["e", 1], ["p", 0], 0], ["g", "X", ["e", 0]]]),
+    ((1, 2, 1), [["w", ["I", "I"], ["e", 0]], ["cx", ["e", 0], ["p", 0]], ["g", "I", ["e", 0]], ["g", "I", ["e", 0]], ["cx", ["e", 0], ["p", 1]],
+                 ["mcr", ["e", 0], ["p", 1], 0], ["g", "H", ["e", 0]], ["g", "I", ["p", 1]]]),
+    ((2, 2, 0), [["g", "H", ["e", 0]], ["g", "P", ["e", 0]], ["cx", ["e", 0], ["p", 0]], ["cx", ["e", 0], ["e", 1]], ["g", "Z", ["e", 1]],
+                 ["cz", ["e", 1], ["p", 1]], ["w", ["H", "P"], ["p", 1]]]),
+]
+
+
+def qeq_short_inputs():
+    out = []
+    for regs, start in list(STARTS) + QEQ_STARTS:
+        m0 = dm.WireModel(*regs)
+        for d in start:
+            model_apply(m0, ["add", d])
+        opts = options(m0, "A", True)
+        opts = [ed for ed in opts if not (ed[0] in ("add", "ins") and ed[1][0] == "mcr" and ed[1][2][0] == "e")]
+        opts = [ed for ed in opts if not (ed[0] == "rep" and ed[2][0] == "mcr" and m0.ops[m0.op_ids()[ed[1]]][2][0] == "e")]
+        singles = []
+        for ed in opts:
+            if ed[0] == "ins" and len(ed[2]) == 2 and m0.insert_would_cycle(ed[1], ed[2]):
+                continue
+            if ed[0] == "add":
+                try:
+                    m0.registers_needed(ed[1])
+                except dm.RegisterError:
+                    continue
+            singles.append(ed)
+        for j, ed in enumerate(singles):
+            # additions: alternately on the circuit itself / on a copy; every other edit kind: both
+            for on_copy in ((j % 2 == 1,) if ed[0] in ("add", "ins") else (False, True)):
+                out.append({"regs": list(regs), "start": start, "edits": [ed], "on_copy": on_copy})
+        first = [ed for ed in singles if ed[0] in ("rm", "rmid", "unwrap", "group", "copy")]
+        for e1 in first:
+            m1 = m0.copy()
+            model_apply(m1, e1)
+            second = [ed for ed in options(m1, "A", False) if ed[0] in ("rm", "rmid", "unwrap", "group", "rep", "copy")]
+            second = [ed for ed in second if not (ed[0] == "rep" and ed[2][0] == "mcr" and m1.ops[m1.op_ids()[ed[1]]][2][0] == "e")]
+            for e2 in second:
+                out.append({"regs": list(regs), "start": start, "edits": [e1, e2], "query_between": True, "on_copy": e1[0] == "rm"})
+            if e1[0] == "rm":
+                # a removal followed by an addition, NO query in between (node and edge counts are back to what they were)
+                for e2 in options(m1, "A", False):
+                    if e2[0] in ("add", "ins") and e2[1][0] == "g" and e2[1][1] == "H":
+                        try:
+                            m1.registers_needed(e2[1])
+                        except dm.RegisterError:
+                            continue
+                        out.append({"regs": list(regs), "start": start, "edits": [e1, e2], "query_between": False, "on_copy": False})
+    return out
+
+
 # ---------------------------------------------------------------------------------------------- domain
 def alphabet(regs, full):
     ne, np_, nc = regs
@@ -258,6 +566,15 @@ FIXED = [
     {"regs": [1, 2, 1], "ops": [["g", "H", ["e", 0]], ["cx", ["e", 0], ["p", 0]], ["mcr", ["e", 0], ["p", 0], 0], ["g", "H", ["e", 0]], ["cx", ["e", 0], ["p", 1]]]},
     {"regs": [2, 1, 1], "ops": [["g", "H", ["e", 0]], ["cx", ["e", 0], ["e", 1]], ["cz", ["e", 1], ["e", 0]], ["cx", ["e", 1], ["p", 0]]]},
     {"regs": [0, 2, 1], "ops": [["g", "H", ["p", 0]], ["cz", ["p", 0], ["p", 1]], ["mz", ["p", 1], 0]]},
+]
+
+
+HI_QEQ = [
+    # (registers, focus qubits, focus classical registers): metrics on registers with a two-digit index
+    ((12, 2, 1), [["e", 1], ["e", 10], ["e", 11], ["p", 1]], [0]),
+    ((11, 11, 11), [["e", 0], ["e", 10], ["p", 10]], [1, 10]),
+    ((2, 12, 11), [["e", 1], ["p", 1], ["p", 11]], [10]),
+    ((10, 10, 10), [["e", 9], ["p", 9]], [9]),
 ]
 
 
@@ -303,6 +620,17 @@ def run(tier, seed):
     for name in ("CircuitMaxEmitResetDepth.value", "CircuitMaxEmitEffDepth.value"):
         S.map(name, sub, nontrivial=nontrivial)
     S.map("metrics.default_construction", FIXED_ALL)
+
+    # (H4/H1/H2) query - edit - query
+    S.map("metrics.query_edit_query_short", qeq_short_inputs())
+    hq = []
+    for j in range(600 if thorough else 96):
+        rg = [(2, 1, 1), (1, 2, 2), (3, 2, 1), (2, 2, 1)][j % 4]
+        hq.append({"regs": list(rg), "seed": seed * 7919 + j, "len": 80 if thorough else 60})
+    for j in range(200 if thorough else 32):
+        rg, focus, cfocus = HI_QEQ[j % len(HI_QEQ)]
+        hq.append({"regs": list(rg), "seed": seed * 7919 + 5000 + j, "len": 60 if thorough else 40, "focus": focus, "cfocus": cfocus, "cap": [13, 13, 13]})
+    S.map("metrics.query_edit_query", hq, chunksize=1)
     wide = sum(1 for c in circuits if "ops" in c and rm.measure_count(c["ops"], True) != rm.measure_count(c["ops"]))
     S.note(
         f"CircuitMeasureCount: contract takes the narrow reading (measure-and-reset operations only); on {wide} of the "
